@@ -35,7 +35,7 @@ func TestC20Worker(t *testing.T) {
 	if !verifkit.IsWorker() {
 		t.Skip("worker entry point")
 	}
-	verifkit.ServeWorker(map[string]func([]byte){"msg": c20DecodeOnce}, 4<<30)
+	verifkit.ServeWorker(map[string]func([]byte){"msg": c20DecodeOnce}, 3<<30)
 }
 
 // c20Judge decodes b in the worker; returns a violation (keyed by root cause) or nil, and whether
@@ -43,7 +43,9 @@ func TestC20Worker(t *testing.T) {
 func c20Judge(b []byte, note string, rep *verifkit.Report) (*c15Violation, bool) {
 	o, _, died, dmsg, dsite, err := c20Worker.Do("D", "msg", b)
 	if err != nil {
-		return &c15Violation{"C20/harness/worker", err.Error()}, true
+		rep.Label("worker-infra-error", 1) // inconclusive for this input, never a violation
+		rep.Notes["worker-infra-error"] = err.Error()
+		return nil, true
 	}
 	if died {
 		key := "C20/fatal/" + verifkit.SiteKey(dsite)
